@@ -147,4 +147,19 @@ CHECKS = {
                 "(struct fields marshalled in order, bool decoding) observed not verified; reference table transcribed by hand from the protocol PDF. No axioms.",
         "technique": "Coq proof over translator-generated tables + differential correspondence through the real YAML account manager",
     },
+    "C18": {
+        "text": "Theorems (Props/C18.v) over a std++ model of ThreadedNewsYAML (path-keyed representation of the nested maps): a new article's ID is "
+                "used by no article present (IDs < 2^32-1); a successful post records the requested parent, links the article after the previously "
+                "newest, leaves every other article's title, poster, date and body (and all links except the previous newest's next and - if unset - "
+                "the parent's first child) unchanged, and changes nothing else in the tree; deleting an article / a category or bundle removes "
+                "exactly that item (and what is below it); creating replaces only its own subtree; category listings are exactly the children "
+                "of a path; the article list is decodable by the reference decoder (C01 layout theorem, titles/posters <= 255); every "
+                "successful update is written, so a restart reproduces the tree. Correspondence: generated histories (create bundle/category "
+                "incl. nested and re-created names, posts and replies incl. to missing categories/parents, article and item deletions, restarts, "
+                "article-list replies) through the real handlers; after EVERY step the full tree in memory and the tree re-read from the YAML file "
+                "are dumped and compared with the model; list replies are compared byte for byte.",
+        "note": "Known finding (yaml.v3): strings beginning with a line feed do not survive the YAML round trip (dedicated profile, reported as KNOWN-FINDING). "
+                "Trusted: std++ gmap, yaml.v3 otherwise, WriteFile+Rename. No axioms.",
+        "technique": "Coq proof (frame-style effect theorems on a gmap model) + differential correspondence of full-tree dumps after every step",
+    },
 }
